@@ -29,7 +29,16 @@ ALL_KINDS = '{"n", "e", "u", "new"}'
 def scopes(tier):
     q = tier == "quick"
     sp = {"Parts": '{"spam"}'}
-    out = [("size", {"Parts": '{"size"}'})]
+    out = []
+    # matchrule semantics (what "a matching exception" means): all single rules and pairs of rules over a
+    # small alphabet, inverted or not, data shorter / longer than the values
+    if q:
+        out.append(("size+match", {"Parts": '{"size", "match"}'}))
+    else:
+        out.append(("size+match", {"Parts": '{"size", "match"}', "MSyms": "{1, 2, 3}", "MCi": "{FALSE, TRUE}", "MPairLens": "{1, 2, 3}"}))
+    # a rule gives source 2 its own threshold, below / equal / above the global one; long enough to flood a
+    # banned source beyond unban * its threshold and then keep it silent for unban + 1 rounds
+    rthr = dict(sp, NSrc="2", Kinds='{"n"}', Dts="{1}", Modes='{"rules"}', Us="{4, 1}")
     # two sources, plain events, both gap lengths
     two = dict(sp, NSrc="2", Kinds='{"n"}', Dts="{1, 2}", Modes='{"exc"}', T2s="{1}")
     # one source, deeper (ban, decay over unban+1 rounds, residual, re-ban)
@@ -39,13 +48,15 @@ def scopes(tier):
     if q:
         out.append(("two", dict(two, MaxSteps="6", Ts="{1, 2}", Us="{4, 1}")))
         out.append(("deep", dict(deep, MaxSteps="9", Ts="{1, 2, 3}", Us="{4, 1}")))
-        out.append(("classes-exc", dict(cls, MaxSteps="4", Ts="{1, 2}", WithDisabled="TRUE", Modes='{"exc"}', T2s="{1}")))
-        out.append(("classes-rules", dict(cls, MaxSteps="4", Ts="{1, 2}", WithDisabled="TRUE", Modes='{"rules"}', T2s="{1, 2}")))
+        out.append(("rule-threshold", dict(rthr, MaxSteps="8", Ts="{1, 3}", T2s="{1, 2}")))
+        out.append(("classes", dict(cls, MaxSteps="4", Ts="{1, 2}", WithDisabled="TRUE", Modes='{"exc", "rules"}', T2s="{1, 2}")))
     else:
         for t in (1, 2, 3):
             for u in (4, 1):
                 out.append(("two-T%d-U%d" % (t, u), dict(two, MaxSteps="8", Ts="{%d}" % t, Us="{%d}" % u)))
                 out.append(("deep-T%d-U%d" % (t, u), dict(deep, MaxSteps="11", Ts="{%d}" % t, Us="{%d}" % u)))
+        for t in (1, 2, 3):
+            out.append(("rule-threshold-T%d" % t, dict(rthr, MaxSteps="10", Ts="{%d}" % t, T2s="{1, 2, 3}")))
         out.append(("classes-exc", dict(cls, MaxSteps="6", Ts="{1, 2}", WithDisabled="TRUE", Modes='{"exc"}', T2s="{1}")))
         for t in (1, 2):
             out.append(("classes-rules-T%d" % t, dict(cls, MaxSteps="5", Ts="{%d}" % t, Modes='{"rules"}', T2s="{1, 2}")))
@@ -66,14 +77,25 @@ def strict_runs(ctx):
     r3 = ctx.tlc_expect_ok("Admission", "Admission_strict.cfg", timeout=300, deadlock=False, name="strict/both-off", count=False,
                            overrides=dict(base, MaxSteps="6", Modes='{"exc", "rules"}', D_ResidualAfterUnban="FALSE",
                                           D_ExceptionsIgnoredWithRules="FALSE"))
-    return {"residual_on_violates": r1.violated, "exceptions_ignored_on_violates": r2.violated, "both_off_ok": r3.ok}
+    # mechanism mutants: a specification without the mechanism must violate the invariant inside the replayed scope
+    r4 = ctx.tlc("Admission", "Admission_mutant.cfg", timeout=300, deadlock=False, name="mutant/cap-by-global-threshold",
+                 overrides={"Parts": '{"spam"}', "NSrc": "2", "Kinds": '{"n"}', "Dts": "{1}", "MaxSteps": "8", "Ts": "{2, 3}",
+                            "T2s": "{1}", "Us": "{4, 1}", "Modes": '{"rules"}', "M_CapPerSource": "FALSE"})
+    r5 = ctx.tlc("Admission", "Admission_mutant.cfg", timeout=300, deadlock=False, name="mutant/shortcut-before-invert",
+                 overrides={"Parts": '{"match"}', "M_InvertAfterShortcut": "FALSE"})
+    if r4.violated != "UnbanWithin":
+        raise vlib.Infra("specification mutant without the per-source cap does not violate UnbanWithin (%s)" % r4.violated)
+    if r5.violated != "MatchAgrees":
+        raise vlib.Infra("specification mutant with the length shortcut ahead of Invert does not violate MatchAgrees (%s)" % r5.violated)
+    return {"residual_on_violates": r1.violated, "exceptions_ignored_on_violates": r2.violated, "both_off_ok": r3.ok,
+            "mutant_cap_global_violates": r4.violated, "mutant_shortcut_before_invert_violates": r5.violated}
 
 
 def run(ctx):
     cfg = "Admission_quick.cfg" if ctx.tier == "quick" else "Admission_thorough.cfg"
     size_path = os.path.join(ctx.scratch, "c20_pipeline_cases.ndjson")
     spam_path = os.path.join(ctx.scratch, "c20_antispam_cases.ndjson")
-    n_size = n_spam = n_pipe_hist = 0
+    n_size = n_spam = n_pipe_hist = n_match = 0
     per_scope = {}
     # share of histories that also go through Pipeline.In (unban iterations are the constant 4 there)
     pipe_budget = 24000 if ctx.tier == "quick" else 100000
@@ -88,21 +110,26 @@ def run(ctx):
             if not cases:
                 raise vlib.Infra("TLC exported no case in scope %s" % name)
             per_scope[name] = len(cases)
-            if cases[0].get("part") == "size":
-                for c in cases:
-                    fsz.write(json.dumps(c, separators=(",", ":")) + "\n")
-                n_size += len(cases)
-                samples.append(cases[len(cases) // 2])
-            else:
-                for c in cases:
-                    line = json.dumps(c, separators=(",", ":"))
+            picked = {}
+            for c in cases:
+                part = c.get("part")
+                line = json.dumps(c, separators=(",", ":"))
+                if part == "size":
+                    fsz.write(line + "\n")
+                    n_size += 1
+                elif part == "match":
                     fsp.write(line + "\n")
+                    n_match += 1
+                else:
+                    fsp.write(line + "\n")
+                    n_spam += 1
                     if c["U"] == 4 and not (c["mode"] == "rules" and c["T"] == -1):
-                        # reservoir-free seeded choice: keep with a probability, trimmed below
+                        # seeded choice of the histories that also go through Pipeline.In (trimmed below)
                         if ctx.rng.random() < 0.25:
                             pipe_candidates.append(line)
-                n_spam += len(cases)
-                samples.append(cases[ctx.rng.randrange(len(cases))])
+                if part not in picked or ctx.rng.random() < 0.001:
+                    picked[part] = c
+            samples.extend(picked.values())
             del cases
         ctx.rng.shuffle(pipe_candidates)
         for line in pipe_candidates[:pipe_budget]:
@@ -118,7 +145,9 @@ def run(ctx):
         with open(size_path, "w") as fsz, open(spam_path, "w") as fsp:
             for r in recs:
                 c = r.get("case") or {}
-                if r.get("harness") == "antispam":
+                if r.get("harness") == "antispam-match":
+                    fsp.write(json.dumps(dict(r.get("match_case") or {}, part="match")) + "\n")
+                elif r.get("harness") == "antispam":
                     fsp.write(json.dumps(dict(c, part="spam")) + "\n")
                 elif r.get("harness") == "pipeline-antispam":
                     fsz.write(json.dumps(dict(c, part="spam")) + "\n")
@@ -141,6 +170,8 @@ def run(ctx):
     if not ctx.replay:
         if ra["executed"] != n_spam:
             raise vlib.Infra("antispam harness executed %d of %d histories" % (ra["executed"], n_spam))
+        if ra["match_cases"] != n_match:
+            raise vlib.Infra("antispam harness executed %d of %d matchrule cases" % (ra["match_cases"], n_match))
         if rp["hist"]["executed"] != n_pipe_hist:
             raise vlib.Infra("pipeline harness executed %d of %d histories" % (rp["hist"]["executed"], n_pipe_hist))
         if rp["size"]["executed"] < n_size:
@@ -188,7 +219,7 @@ def run(ctx):
 
     # ---- evidence
     ctx.evaluations = ra["steps"] + rp["hist"]["steps"] + rp["size"]["executed"]
-    ctx.traces_validated = ra["executed"] + rp["hist"]["executed"] + rp["size"]["executed"]
+    ctx.traces_validated = ra["executed"] + ra["match_cases"] + rp["hist"]["executed"] + rp["size"]["executed"]
     ctx.nontrivial = ra["cases_with_ban"] + rp["size"]["cut_delivered"] + rp["size"]["kept_at_limit"]
     ctx.exhaustive = True
     ctx.rule = ("size: case = (body length 0..M+2, trailing newline, max_event_size 0..8, cut_off, cut-off field, decodable, "
@@ -196,10 +227,11 @@ def run(ctx):
                 "(%d In calls, %d delivered, %d cut and delivered, %d records exactly at the limit). antispam: %d maximal "
                 "histories (scopes %s), ALL replayed step by step on the real Antispammer (%d steps, %d ban transitions, %d unbans, "
                 "%d steps with a determined verdict), and a seeded sample of %d of them through the real Pipeline.In with the cri "
-                "decoder. Non-trivial = histories in which the real antispammer banned a source + size cases that were cut and "
+                "decoder. matchrule: %d (rule set, data) cases, each through the real IsSpam as an exception on the event bytes, as an "
+                "exception on the source name and as an unlimited do_if rule. Non-trivial = histories in which the real antispammer banned a source + size cases that were cut and "
                 "delivered or sat exactly at the limit." %
                 (n_size, rp["size"]["executed"], rp["size"]["delivered"], rp["size"]["cut_delivered"], rp["size"]["kept_at_limit"],
-                 n_spam, json.dumps(per_scope), ra["steps"], ra["bans"], ra["unbans"], ra["determined"], n_pipe_hist))
+                 n_spam, json.dumps(per_scope), ra["steps"], ra["bans"], ra["unbans"], ra["determined"], n_pipe_hist, n_match))
     for s in samples[:4]:
         ctx.sample(s)
     ctx.extra["c20"] = {"scopes": per_scope, "strict_runs": strict, "antispam_harness": {k: ra[k] for k in ra if k not in ("violations", "drift_samples")},
@@ -213,6 +245,8 @@ def run(ctx):
         "with the raw decoder the delivered message is compared with all but the last byte of the expected pre-decode bytes "
         "(the raw decoder strips the last byte unconditionally; for a record without trailing newline that is a content byte -- "
         "decoder fidelity is C12, not claimed); the probe decoder compares the exact bytes",
+        "matchrule: alphabet {a, b, A}, values of length 1..2, data of length 0..3, one or two rules per set; the do_if variant of a "
+        "rule (pipeline/doif, decided under C14) is compared with the same declarative meaning",
         "IsSpam/Maintenance are replayed sequentially; concurrent callers of one source (unsynchronised read-modify-write) are not covered",
         "ban state = counter >= the source's threshold, read in-package after every step (Dump() cross-checked)",
     ]
